@@ -29,7 +29,12 @@ func readGitConfig(configs ...*git.ConfigurationSource) (gf *GitFetcher, extensi
 		for _, line := range gc.Lines {
 			pieces := strings.SplitN(line, "=", 2)
 			if len(pieces) < 2 {
-				continue
+				if len(line) == 0 {
+					continue
+				}
+				// A key without a value is how Git lists a
+				// valueless boolean, which it reads as true.
+				pieces = append(pieces, "true")
 			}
 
 			allowed := !gc.OnlySafeKeys
